@@ -23,7 +23,10 @@ FactsClause(f) == IF f.haswrap THEN "WrapRemoved"
                   ELSE IF ~f.ise_orig THEN "OriginalException"
                   ELSE "ok"
 
-Verdict(ln) == CASE ln.op = "render" -> RenderClause(ln.c, ln.o)
+ASSUME Variant = "fixed"
+\* the reference page of a render case, built once per line (used by the clauses and by the model)
+Page(ln) == IF ln.op = "render" /\ Known(ln.c.cls) /\ ln.c.resp = 0 /\ ~Dirty(ln.c) THEN GoodBody(ln.c) ELSE <<>>
+Verdict(ln, page) == CASE ln.op = "render" -> RenderClauseG(ln.c, ln.o, page)
                  [] ln.op = "redirect" -> RedirectClause(ln.c, ln.o)
                  [] ln.op = "abort" -> AbortClause(ln.c, ln.o)
                  [] ln.op = "static" -> StaticClause(ln.s)
@@ -38,10 +41,10 @@ OutDrift(m, o) == IF m.exc # o.exc THEN "exception"
                   ELSE IF HdrList(m.headers) # HdrList(o.headers) THEN "headers"
                   ELSE IF m.body # o.body THEN "body"
                   ELSE "ok"
-Drift(ln) == CASE ln.op = "render" -> (IF ~Known(ln.c.cls) THEN "unknown-class"
+Drift(ln, page) == CASE ln.op = "render" -> (IF ~Known(ln.c.cls) THEN "unknown-class"
                                        ELSE IF ln.c.resp # 0 THEN "ok"
                                        ELSE IF CodeOf(ln.c.cls) # 0 /\ ln.c.name # Row(ln.c.cls).name THEN "name-differs-from-docstring"
-                                       ELSE OutDrift(RenderModel(ln.c), ln.o))
+                                       ELSE OutDrift(RenderModelB(ln.c, page), ln.o))
                [] ln.op = "redirect" -> (IF ln.c.fn # "slash" /\ ~LocDomain(ln.c.loc) /\ ~LocDirty(ln.c.loc) THEN "ok"
                                          ELSE IF ln.c.code \notin RedirCodes THEN "ok"
                                          ELSE OutDrift(RedirectModel(ln.c), ln.o))
@@ -57,10 +60,10 @@ Drift(ln) == CASE ln.op = "render" -> (IF ~Known(ln.c.cls) THEN "unknown-class"
 
 Init == l = 1
 Next == /\ l <= Len(Lines)
-        /\ LET ln == Lines[l] v == Verdict(ln) IN
+        /\ LET ln == Lines[l] page == Page(ln) v == Verdict(ln, page) IN
            /\ IF v = "ok" THEN TRUE ELSE PrintT(ToJson([reject |-> 1, t |-> ln.t, i |-> ln.i, clause |-> v]))
            /\ IF v # "ok" THEN TRUE
-              ELSE LET d == Drift(ln) IN
+              ELSE LET d == Drift(ln, page) IN
                    IF d = "ok" THEN TRUE ELSE PrintT(ToJson([drift |-> 1, t |-> ln.t, i |-> ln.i, what |-> d]))
         /\ l' = l + 1
 
